@@ -18,6 +18,8 @@ ID = "C07"
 TRUSTED = ["CPython repr(float)/float(str) round trip and the character set of repr (checked on every probability on disk)",
            "codecs encode/decode of the ruleset encoding; configparser and json for config.ini",
            "str.splitlines / str.rstrip / int(): probed over all code points on every run, compared with the model on every file"]
+TRUSTED.append("translator tie of check_valid: the reading harness/translate_reader.py gives its accepted Python subset and the "
+               "runtime coq/theories/ReaderRt.v (`a in b` on strings = substring test, chr, constant ranges, any / all as existsb / forallb)")
 ASSUMES = ["alpha values are the lower-cased segment: str.lower() never yields a TAB or a line break from other characters (swept on every run)",
            "C07_roundtrip_*: values contain no TAB and no code point the line iteration splits on (safe_value); this follows from "
            "check_valid when C07_linebreaks_rejected holds, because segments are substrings of accepted passwords",
@@ -536,6 +538,8 @@ def run(ctx):
     # lower-casing (alpha values are stored lower-cased) cannot create a TAB or a line break: sweep of the interpreter
     lbt = set(C["linebreak"]) | {9}
     bad_lower = [c for c in range(0x110000) if c not in lbt and any(ord(d) in lbt for d in chr(c).lower())]
+    import reader_tie
+    corr += reader_tie.obligations()
     corr.append(("probe:lower-keeps-values-safe", not bad_lower,
                  "str.lower() of %s yields a TAB / line break" % cps(bad_lower[:5]) if bad_lower else "all 0x110000 code points"))
     # the side conditions of Props/C07.v, spelled out for the evidence
